@@ -34,8 +34,8 @@ Extraction "moc_model.ml"
   Merge2D.merge2 Merge2D.op_union Merge2D.op_inter Merge2D.op_diff
   STBuilder.st_build
   SweepLine.st_sweep
-  AsciiCodec.to_ascii AsciiCodec.from_ascii AsciiCodec.isort_e AsciiCodec.st_to_ascii AsciiCodec.st_from_ascii AsciiCodec.to_ascii_stream AsciiCodec.from_ascii_stream
+  AsciiCodec.to_ascii AsciiCodec.from_ascii AsciiCodec.isort_e AsciiCodec.st_to_ascii AsciiCodec.st_to_ascii_l AsciiCodec.st_from_ascii AsciiCodec.to_ascii_stream AsciiCodec.from_ascii_stream
   AsciiMoc.elems_of_cells AsciiMoc.ranges_of_elems
   FitsCodec.fits_write FitsCodec.fits_read FitsCodec.fits_write_st FitsCodec.fits_write_nuniq FitsCodec.mom_read FitsCodec.sky_read
   MocSetBytes.file_bytes MocSetBytes.decode_file MocSetBytes.append_steps MocSetBytes.purge_tmp_files MocSetBytes.kept_of
-  JsonCodec.to_json JsonCodec.st_to_json JsonCodec.from_json JsonCodec.st_from_json.
+  JsonCodec.to_json JsonCodec.st_to_json JsonCodec.st_to_json_l JsonCodec.from_json JsonCodec.st_from_json.
